@@ -15,6 +15,7 @@ ASSUMPTIONS = ['fragments mixing an upper-case call with a nested lower-case one
 SUSP = [('eval(1)', ['eval(1)']), ('os.system("x")', ['system("x")']), ('f()', ['f()']), ('a_b(1,2)', ['a_b(1,2)']),
         ('x9(y)', ['x9(y)']), ('eval(\n1)', ['eval(\n1)']), ('=eval(1)+1', ['eval(1)']),
         ('see print(2) and exec("3")', ['print(2)', 'exec("3")']), ('=A1+len("ab")', ['len("ab")']),
+        ('=eval(1)+eval(1)', ['eval(1)', 'eval(1)']), ('f(a) f(a)', ['f(a)', 'f(a)']),
         (('$array', '=eval(1)'), ['eval(1)']), (('$array', '=SUM(A1:A2)*len("ab")'), ['len("ab")']), ('sha1(A1)', ['sha1(A1)'])]
 INNO = [('SUM(1,2)', None), ('=SUM(A1:A2)', None), ('=IF(A1>1,"a",2)', None), ('a (1)', None), ('text', None), (12, None),
         (True, None), ('SUM(1,\n2)', None), ('=ROUND(\nA1,1)', None), ('(1)', None), ('=A1*(B1+2)', None), (2.5, None),
